@@ -7,7 +7,7 @@ import os
 import airgen
 import vlib
 
-HEADER = ("From Aqua Require Import Base Json Air Trace Handler Values Scalars Lens Exec RunExec ExecCases.\n"
+HEADER = ("From Aqua Require Import Base Json Air Trace Handler Values Scalars Lens Exec RunExec ExecStreams ExecCases.\n"
           "Open Scope N_scope.\nOpen Scope list_scope.\n")
 TYPE = "case_t"
 
